@@ -108,8 +108,8 @@ def gen_keys(rng, n, debug_bias=0.15):
             v = rng.random() * 1.15
             if v < 0.2 and base.get('ns'):
                 base['ns_form'] = rng.choice(['reversed', 'ordered'])
-            elif v < 0.3 and base.get('custom'):
-                base['custom_form'] = 'reversed'
+            elif (v < 0.3 or (v < 0.6 and len(base.get('custom') or ()) > 1)) and base.get('custom'):
+                base['custom_form'] = 'reversed' if base.get('custom_form') != 'reversed' else 'dict'
             elif v < 0.45:
                 base['flags_form'] = 'bool' if base.get('flags_form') != 'bool' else 'int'
             elif v < 0.55:
